@@ -440,7 +440,7 @@ def sel_c15(g, o):
 def sel_c16(g, o):
     if o['cls'] in SAFETY_CLASSES or o['cls'] == 'static' or '.keyset.' in g.name:
         return True
-    if re.search(r'spec sanity|released|releases|freed|scratch|holds n entries|in range|writable|OOB|size|owns|life cycle', o['desc']):
+    if re.search(r'spec sanity|released|releases|freed|scratch|holds n entries|in range|writable|readable|OOB|size|owns|life cycle', o['desc']):
         return True
     return False
 
@@ -543,6 +543,10 @@ def c16_groups(tier):
     gs = alloc_groups('C16', tier)
     gs += keyset_groups('C16')
     gs += fftmul_groups('C16')                          # FFT-based ring products: temporaries released
+    # functions put under contract late: their safety obligations (bounds of the noise array of the key-switching key creation for every n, gadget rows, TGSW decryption temporaries)
+    gs += [g for g in c07_groups(tier, 'C16') if 'lweCreateKeySwitchKey.unbounded' in g.name and ('t=8' in g.name or 't=2' in g.name or tier != 'quick')]
+    gs += [g for g in c09_groups(tier, 'C16') if 'tGswAddMuH.k=1.l=2' in g.name or 'tGswExternProduct' in g.name or ('tGswAddMuH' in g.name and tier != 'quick')]
+    gs += [g for g in c03_groups(tier, 'C16') if 'tGswSymDecrypt' in g.name]
     gs += c18_groups(tier, 'C16')                     # binary readers: every destination writable for the byte count requested
     gs += [g for g in c17_groups(tier, 'C16') if 'write+read' in g.name or 'key+sample' in g.name]     # binary writers: every source readable for the byte count
     gs += boot_groups('C16')
